@@ -87,6 +87,10 @@ type trans struct {
 	aux     []string // auxiliary definitions (loops) of the function being translated
 	self    string
 	auxReg  map[string]auxInfo // "<func>#switch<i>" / "<func>#for<i>": definitions translated on their own
+	// pure-mode methods, for calls from the imperative part (translate_imp.go)
+	pureMethodFields map[string][]sfield
+	leanNames        map[string]string
+	sigsByKey        map[string]sig
 }
 
 type auxInfo struct {
@@ -677,6 +681,16 @@ func (t *trans) function(key string, leanName string) string {
 			t.sigs[key] = sg
 		}
 	}
+	if t.recv != "" && !t.mayPanic {
+		if t.pureMethodFields == nil {
+			t.pureMethodFields, t.leanNames, t.sigsByKey = map[string][]sfield{}, map[string]string{}, map[string]sig{}
+		}
+		var fs []sfield
+		for _, f := range t.fieldOrder() {
+			fs = append(fs, sfield{f, t.fields[f]})
+		}
+		t.pureMethodFields[key], t.leanNames[key], t.sigsByKey[key] = fs, leanName, sg
+	}
 	return fmt.Sprintf("/-- %s (%s) -/\ndef %s %s : %s :=\n  %s\n", key, t.p.fset.Position(d.Pos()), leanName, strings.Join(params, " "), resTy, body)
 }
 
@@ -974,8 +988,9 @@ func emitTranslated(p *pkgInfo) (out string, err error) {
 		}
 	}()
 	t := &trans{p: p, ren: map[string]string{}, sigs: map[string]sig{}, psigs: map[string]psig{}}
+	knownStructs = p.structs
 	var b strings.Builder
-	b.WriteString("/- GENERATED by extract (translate.go) from /repo's current source: do not edit.\n   Go functions of the subset the translator understands, as Lean definitions; shifts and rotations\n   have Go's semantics (RapidModel/GoSem.lean). -/\nimport RapidModel.GoProg\n\nset_option linter.unusedVariables false\n\nnamespace Rapid.Translated\n\n")
+	b.WriteString("/- GENERATED by extract (translate.go) from /repo's current source: do not edit.\n   Go functions of the subset the translator understands, as Lean definitions; shifts and rotations\n   have Go's semantics (RapidModel/GoSem.lean). -/\nimport RapidModel.GoProg\nimport RapidModel.GoImp\n\nset_option linter.unusedVariables false\n\nnamespace Rapid.Translated\n\n")
 	b.WriteString(t.function("bitmask64", "bitmask64"))
 	b.WriteString("\n")
 	b.WriteString(t.function("ufloatFracBits", "ufloatFracBits"))
@@ -1045,6 +1060,14 @@ func emitTranslated(p *pkgInfo) (out string, err error) {
 	b.WriteString("/-! ### floats.go: float64/float32 values are bit patterns here -/\n\n")
 	for _, fn := range []string{"genUfloatRange", "genFloatRange"} {
 		b.WriteString(t.progFunction(fn, false))
+		b.WriteString("\n")
+	}
+	b.WriteString("/-! ### data.go: the recording state machine and the two bit streams, in `Go.M` -/\n\n")
+	b.WriteString(emitStruct("groupInfo"))
+	b.WriteString("\n")
+	isigs := map[string]*isig{}
+	for _, fn := range []string{"recordedBits.record", "recordedBits.beginGroup", "recordedBits.endGroup", "recordedBits.removeGroup", "recordedBits.prune", "bufBitStream.drawBits", "randomBitStream.drawBits"} {
+		b.WriteString(t.impFunction(fn, isigs))
 		b.WriteString("\n")
 	}
 	b.WriteString("end Rapid.Translated\n")
